@@ -530,3 +530,75 @@ Proof.
   - intros [H|[H|[H|[H|[H|[H|[]]]]]]]; discriminate.
   - vm_compute. repeat split; reflexivity.
 Qed.
+
+(* 21. fuel suffices: both fills always end (every history is finite; every iteration uses up a history entry
+       or at least one byte, or is the last).
+   22. the file variant of 18.
+   23. the multi-line branches of Model/SearcherGlue.v (search_reader_m, search_file_m without a map) return what
+       the searches with the fill loops put in return (no heap limit, no transcoding, failure-free history).
+   24. search_reader reads through encoding_rs_io's pass-through BomPeeker (3-byte prefetch): the loop behind it
+       still delivers everything or the heap-limit error; the prefetch itself cannot fail or hang without a hard
+       error in the history. *)
+Theorem ml_fill_fuel_suffices :
+  forall heap_limit rooms b r, ml_fill_from_reader heap_limit rooms b r <> MlFuel.
+Proof. exact ml_fill_from_reader_fuel_suffices. Qed.
+Print Assumptions ml_fill_fuel_suffices.
+
+Theorem ml_fill_from_file_fuel_suffices_thm :
+  forall heap_limit rooms file_len b r, ml_fill_from_file heap_limit rooms file_len b r <> MlFuel.
+Proof. exact ml_fill_from_file_fuel_suffices. Qed.
+Print Assumptions ml_fill_from_file_fuel_suffices_thm.
+
+Theorem ml_fill_from_file_error_nothing_searched :
+  forall cfg M heap_limit mmap_enabled reply_of rooms file_len b stream hist,
+    let f := ml_fill_from_file heap_limit rooms file_len b {| r_rest := stream; r_hist := hist |} in
+    let res := fst (fst (search_file_ml cfg M heap_limit mmap_enabled reply_of rooms file_len b {| r_rest := stream; r_hist := hist |})) in
+    ml_check_config cfg M heap_limit mmap_enabled = true ->
+    match outcome_of f with
+    | FilledWith c => c = stream /\ res = multi_line_run cfg M reply_of stream
+    | HeapLimitError => heap_limit_hit heap_limit stream = true /\ res = RunErr []
+    | ReadError => In RFail hist /\ res = RunErr []
+    | NoAnswer => False
+    end.
+Proof. exact ml_search_file_outcomes. Qed.
+Print Assumptions ml_fill_from_file_error_nothing_searched.
+
+Theorem ml_search_reader_is_glue_search :
+  forall cfg M mmap_enabled reply_of rooms b st s hist,
+    multi_line_with_matcher cfg M = true -> failure_free hist ->
+    fst (search_reader_m cfg M (fun x => x) reply_of st s hist)
+    = fst (fst (search_reader_ml cfg M None mmap_enabled reply_of rooms b {| r_rest := s; r_hist := hist |})).
+Proof. exact ml_search_reader_agrees_with_glue. Qed.
+Print Assumptions ml_search_reader_is_glue_search.
+
+Theorem ml_search_file_is_glue_search :
+  forall cfg M reply_of rooms b st s hist,
+    multi_line_with_matcher cfg M = true ->
+    fst (search_file_m cfg M false false (fun x => x) reply_of st false s hist)
+    = fst (fst (search_file_ml cfg M None false reply_of rooms (length s) b {| r_rest := s; r_hist := [] |})).
+Proof. exact ml_search_file_agrees_with_glue. Qed.
+Print Assumptions ml_search_file_is_glue_search.
+
+Theorem ml_fill_behind_peeker :
+  forall heap_limit rooms b stream hist, failure_free hist ->
+    exists got tr r', peek_loop (ml_fuel {| r_rest := stream; r_hist := hist |}) 3 [] [] {| r_rest := stream; r_hist := hist |}
+                      = PeekOk got tr r' /\
+      outcome_of (ml_fill_from_reader heap_limit rooms b (peeked_reader got r')) = fill_expected heap_limit stream.
+Proof. exact ml_fill_behind_peeker_lemma. Qed.
+Print Assumptions ml_fill_behind_peeker.
+
+(* non-vacuity of 23/24: a multi-line matcher, 1-byte reads with an interruption inside the 3-byte prefetch *)
+Example ml_glue_and_peeker_example :
+  let cfg := {| c_lt := LTByte 10; c_invert := false; c_after := 0; c_before := 0; c_passthru := false;
+                c_line_number := true; c_stop_on_nonmatch := false; c_binary := BNone; c_multi_line := true |} in
+  let M := scripted cfg [ {| n_anch := false; n_bytes := [97; 10; 98]%N; n_real := true |} ] true 0%N in
+  let K := fun _ : nat => Continue in
+  let s := [97; 10; 98; 10; 99; 10]%N in
+  let h := [RChunk 1; RInterrupted; RChunk 1; RChunk 1; RChunk 1] in
+  multi_line_with_matcher cfg M = true
+  /\ fst (fst (search_reader_ml cfg M (Some 7) false K [] mb_new {| r_rest := s; r_hist := h |}))
+     = RunOk [EBegin; EMatched 0 (Some 1) [97; 10; 98; 10]%N; EFinish 6 None]
+  /\ fst (fst (search_reader_ml cfg M (Some 6) false K [] mb_new {| r_rest := s; r_hist := h |})) = RunErr []
+  /\ peek_loop (ml_fuel {| r_rest := s; r_hist := h |}) 3 [] [] {| r_rest := s; r_hist := h |}
+     = PeekOk [97; 10; 98]%N [1; 2; 2; 3] {| r_rest := [10; 99; 10]%N; r_hist := [RChunk 1] |}.
+Proof. vm_compute. repeat split; reflexivity. Qed.
